@@ -26,7 +26,8 @@ P2Struct == {"remove.creator", "remove.main", "remove.fd", "remove.ifsc", "remov
              "dup.creator", "dup.main", "dup.fd", "dup.ifsc", "dup.recv",
              "ids.dup", "ids.unsorted", "ids.extra", "ids.missing", "fd.hash", "fd.hash16k", "fd.name_empty", "fd.name_long",
              "recv.data_short", "recv.data_long", "recv.data_wrong",
-             "recv.exps_vdm_singular"}   \* exponents relabelled {0, 21845, 43690}: singular for the slices 0 and 2 (constants 2^1, 2^4)
+             "recv.exps_vdm_singular",
+             "creator.body_empty", "creator.body_padding", "creator.body_blank"}   \* exponents relabelled {0, 21845, 43690}: singular for the slices 0 and 2 (constants 2^1, 2^4)
 P1Fields == {"hdr.volume", "hdr.file_count", "hdr.list_offset", "hdr.list_bytes", "hdr.data_offset", "hdr.data_bytes", "hdr.version",
              "ent.entry_bytes", "ent.status", "ent.file_bytes"}
 P1Struct == {"ent.hash", "ent.hash16k", "vol.data_short", "vol.data_long", "vol.number_swapped", "set.256_entries", "set.255_entries", "set.257_entries", "set.300_entries",
